@@ -87,7 +87,8 @@ def oracle(case):
         kw["wrap"] = wrap
     text = attempt(build.write_text, las, **kw)
     vrows = [["VERS", "", ["f", "2.0"], ""], ["WRAP", "", ["s", "NO"], "One line per depth step"],
-             ["DLM", "", ["s", "SPACE"], "Column Data Section Delimiter"]] + desc.get("version", [])
+             ["DLM", "", ["s", "SPACE"], "Column Data Section Delimiter"]]
+    vrows = (desc.get("version", []) + vrows) if desc.get("version_front") else (vrows + desc.get("version", []))
     wrows = [["STRT", desc.get("strt_unit", "m"), ["f", "0"], "START DEPTH"], ["STOP", desc.get("strt_unit", "m"), ["f", "0"], "STOP DEPTH"],
              ["STEP", desc.get("strt_unit", "m"), ["f", "0"], "STEP"], ["NULL", "", desc.get("null", ["f", "-9999.25"]), "NULL VALUE"]] + desc.get("well", [])
     crows = [[c[0], c[1], ["s", c[2]], c[3]] for c in desc["curves"]]
@@ -302,7 +303,8 @@ def cases(draw):
         other_lines[k:k] = [""] * draw(st.integers(1, 2))
     if other_lines and draw(st.integers(0, 3)) == 0:
         other_lines += [""] * draw(st.integers(1, 3))  # the text ends with empty lines
-    desc = dict(version=vextra, well=well, params=params, curves=curves, other="\n".join(other_lines),
+    vfront = bool(vextra) and draw(st.integers(0, 3)) == 0
+    desc = dict(version=vextra, version_front=vfront, well=well, params=params, curves=curves, other="\n".join(other_lines),
                 strt_unit=draw(st.sampled_from(["m", "M", "FT", ""])), null=draw(st.sampled_from([["f", "-9999.25"], ["f", "-999.25"], ["i", -999]])))
     case = dict(desc=desc, version=version, mnemonic_case=draw(st.sampled_from(["preserve", "upper", "lower"])),
                 wrap=draw(st.sampled_from([None, None, True, False])))
